@@ -223,7 +223,7 @@ func eval(e *rsx.Env, a *aux, rq rsx.Req) (bool, bool, string, string) {
 			return false, nontrivial, "txn-disagree", fmt.Sprintf("%s answers reverse=(%d,%v) lookup=(%d,%v,[%s]) iter=%d: %s", which, ot.RevID, ot.RevTsr, ot.LkID, ot.LkTsr, rsx.KVString(ot.LkParams), ot.ItID, hdr())
 		}
 	}
-	if !decided {
+	if !decided || e.GrayPrefixedCatchAll(o.LkID, o.LkParams) {
 		return true, nontrivial, "", ""
 	}
 	// In hostname mode a trailing-slash opportunity under a matching host suppresses the path-only
